@@ -15,6 +15,9 @@ use crate::{features, term};
 use colored::Colorize;
 use miette::Result;
 
+#[cfg(lace_verif)]
+mod verif_rt;
+
 /// First address which is out of bounds of user memory.
 pub const USER_MEMORY_END: u16 = 0xFE00;
 /// Sentinel value, which the PC is set to when a `HALT` is encountered.
